@@ -274,6 +274,24 @@ def run(F, R, tier):
                             c = d[1]
                 if any((y.get("fn") or "").endswith("Ord::cmp") for y in walk(c)) and any(y.get("name") in ("is_lt", "is_gt", "is_le", "is_ge") for y in walk(c) if y.get("k") == "MethodCall"):
                     strict = True
+            # ties: types whose Ord is coarser than their Eq/Hash (reviewed facts about dependencies)
+            NON_TOTAL = {"deno_semver::Version": "Ord ignores build metadata while Eq/Hash (HashMap keys) do not: 1.0.0+a and 1.0.0+b are distinct keys that compare Equal"}
+            for x in g:
+                if x.kind != "cond" or not x.pol:
+                    continue
+                c = x.node
+                if c.get("res") == "local":
+                    for d in local_defs(rv, c["lid"]):
+                        if d[0] == "let":
+                            c = d[1]
+                for y in walk(c):
+                    if (y.get("fn") or "").endswith("Ord::cmp") and y.get("k") in ("MethodCall", "Call"):
+                        t = (F.tystr(y.get("recv_ty")) or F.ty(call_args(y)[0], True) or "").lstrip("&")
+                        if t in NON_TOTAL:
+                            tie = any(z.get("k") == "MethodCall" and z["name"] in ("then_with", "then") and (z.get("fn") or "").startswith("std::cmp::Ordering::") for z in walk(c))
+                            R.ob("C04-a-max", "ties between distinct keys are broken deterministically (%s)" % t, tie,
+                                 "the maximum over hash-ordered registry versions compares with %s::cmp only (%s): among versions that compare Equal the first one iterated wins, so the selected version changes with the hasher seed" % (t, NON_TOTAL[t]),
+                                 where(a), key="C04|T6|packages::resolve_version|tie-break")
             R.ob("C04-a-max", "best-version update `%s` is guarded by an ordering comparison" % expr_text(a), strict,
                  "the fold over registry versions replaces the best candidate without an `Ord::cmp` guard between best and candidate: with hash-ordered input the selected version would depend on iteration order", where(a))
 
